@@ -303,6 +303,29 @@ func genC16(r *rand.Rand, tier string, st *Stats) []Case {
 			st.Counts["badhex-pair"]++
 		}
 	}
+	// 2c. EVERY escaped character (backslash + any printable ASCII character but x) followed by every pair of raw
+	// characters from a small alphabet of digits, hex letters, signs and blanks: an escape is one character long,
+	// whatever follows it (octal, unicode, decimal look-alikes: \101, \u0041, \065 ...)
+	follow := "01789afAnux-+ "
+	for c := byte(32); c < 127; c++ {
+		if c == 'x' {
+			continue
+		}
+		for i := 0; i < len(follow); i++ {
+			for j := 0; j < len(follow); j++ {
+				q := "'"
+				if c == '\'' {
+					q = "\""
+				}
+				body := "\\" + string([]byte{c, follow[i], follow[j]})
+				b := specDecode(body)
+				lit := q + body + q
+				id := fmt.Sprintf("ef%d.%d.%d", c, i, j)
+				cases = append(cases, litCase(id+".self", lit, "z"+b+"z", b, "escape-followers"))
+				st.Counts["escape-followers"]++
+			}
+		}
+	}
 	// 3. random mixed ASCII strings with mixed spellings
 	nr := sizes(tier, 1200, 80000)
 	for i := 0; i < nr; i++ {
